@@ -1,4 +1,5 @@
 From Coq Require Extraction ExtrOcamlBasic.
-From GV Require Import Common.Outcome C19.Model C19.Run.
+From GV Require Import Common.Outcome C19.Model C19.Run C19.Diag.
 Extraction Language OCaml.
-Extraction "model.ml" run_case.
+Extraction "model.ml" run_case diag_case spanned_case on_line_case
+  row_indent_cols row_under_cols line_row_indent_cols seg_cols corpus_width.
